@@ -360,6 +360,23 @@ def print_assumptions(props_file: Path, timeout=600) -> tuple[bool, list[dict], 
     return ok, blocks, (p.stdout + p.stderr)[-4000:]
 
 
+def coqchk(props_file: Path, timeout=1500) -> dict:
+    """Independent re-check of the compiled property file and everything it depends on (thorough tier)."""
+    mod = "LK." + str(Path(props_file).relative_to(COQ))[:-2].replace("/", ".")
+    with BuildLock():
+        p = subprocess.run(["timeout", str(timeout), "coqchk", "-o", "-silent", "-Q", str(COQ), "LK", mod],
+                           capture_output=True, text=True, cwd=COQ)
+    out = p.stdout + p.stderr
+    m = re.search(r"\* Axioms:(.*?)\n\s*\n\* Constants/Inductives relying on type-in-type:(.*?)\n\s*\n\* Constants/Inductives relying on unsafe \(co\)fixpoints:(.*?)\n\s*\n\* Inductives whose positivity is assumed:(.*?)(\n\s*\n|$)", out, re.S)
+    res = {"ok": p.returncode == 0 and m is not None, "module": mod}
+    if m:
+        clean = lambda t: [x.strip() for x in t.strip().splitlines() if x.strip() and x.strip() != "<none>"]
+        res.update(axioms=clean(m.group(1)), type_in_type=clean(m.group(2)), unsafe_fix=clean(m.group(3)), positivity=clean(m.group(4)))
+    else:
+        res["tail"] = out[-800:]
+    return res
+
+
 def theorem_names(props_file: Path) -> list[str]:
     body = strip_coq_comments(props_file.read_text())
     return re.findall(r"^\s*(?:Theorem|Corollary)\s+([A-Za-z0-9_']+)", body, re.M)
